@@ -258,6 +258,7 @@ type PathCtx struct {
 	timers        []*timerRec
 	yieldFn       value
 	condSignalled bool
+	sleeps        int
 }
 
 type divEnt struct {
